@@ -1,2 +1,3 @@
 pub mod raw;
 pub mod clocks;
+pub mod sem;
